@@ -357,6 +357,8 @@ func C15(c *core.Ctx) {
 	losslessPost(c, "R2", p.SSAFn(p.Method(pkgPerio, "Server", "AddPeriodReportTimer")), evtCh, "registration with the periodic server")
 	losslessPost(c, "R2", p.SSAFn(p.Method(pkgPerio, "Server", "DelPeriodReportTimer")), evtCh, "unregistration from the periodic server")
 
+	tickAlwaysPosted(c, "R2")
+
 	// R3 batching
 	c15Batching(c)
 
@@ -377,6 +379,9 @@ func C15(c *core.Ctx) {
 		sets := idSets(c, calls)
 		renameRule(c, "R5", "R4", func() { c01Close(c, sets) })
 		c01EndPaths(c, "R4", false)
+		// Close only removes what the session still knows: a URR id is forgotten only where its final report is
+		// emitted (C01 R4) - an id dropped on a failed create keeps its periodic registration for ever
+		shareFrom(c, "C01", "R4", func(o *core.Obligation) bool { return o.Rule == "R4" && strings.Contains(o.Key, "/R4/forget-") && strings.Contains(o.Key, ":URR:") }, 2, "places that forget a URR id")
 	}
 }
 
@@ -600,5 +605,104 @@ func c15Batching(c *core.Ctx) {
 		}
 	})
 	c.Check("R3", "batch-limit", fn.Pos(), lim, "the batch size is the netlink library's report limit")
+	// the flush test: evaluated for "count == limit" it flushes, for "count == limit-1" it does not - a batch
+	// never holds more than the limit (`>` instead of `>=` sends limit+1, which one netlink reply cannot hold)
+	{
+		var limV ssa.Value
+		core.Instrs(fn, func(in ssa.Instruction) {
+			if cl, ok := in.(*ssa.Call); ok && core.Callee(cl) != nil && core.Callee(cl).Name() == "MaxNetlinkUsageReportNum" {
+				limV = cl
+			}
+		})
+		decided := false
+		for _, f := range core.FactsAt(inLoop.Block()) {
+			cmp, ok := f.V.(*ssa.BinOp)
+			if !ok || limV == nil {
+				continue
+			}
+			var cntLeft bool
+			switch {
+			case cmp.Y == limV && isIntType(cmp.X.Type()):
+				cntLeft = true
+			case cmp.X == limV && isIntType(cmp.Y.Type()):
+				cntLeft = false
+			default:
+				continue
+			}
+			truth := func(cnt, lim int) bool {
+				l, r := cnt, lim
+				if !cntLeft {
+					l, r = lim, cnt
+				}
+				var v bool
+				switch cmp.Op {
+				case token.LSS:
+					v = l < r
+				case token.LEQ:
+					v = l <= r
+				case token.GTR:
+					v = l > r
+				case token.GEQ:
+					v = l >= r
+				case token.EQL:
+					v = l == r
+				case token.NEQ:
+					v = l != r
+				}
+				return v == f.True // the flush block is entered when the condition has this value
+			}
+			decided = true
+			c.Check("R3", "flush-at-limit", cmp.Pos(), truth(56, 56) && !truth(55, 56),
+				fmt.Sprintf("the batch is sent when it holds exactly the limit (at count==limit: flush=%v, at limit-1: flush=%v)", truth(56, 56), truth(55, 56)))
+		}
+		if !decided {
+			c.Undecided("R3", "flush-at-limit", inLoop.Pos(), "the in-loop flush is not guarded by a comparison of the batch counter with MaxNetlinkUsageReportNum()")
+		}
+	}
 	_ = types.Typ
+}
+
+// tickAlwaysPosted: a ticker goroutine posts every tick: the send on the event channel is conditional only
+// on the select arm that received from the ticker and on the channel being non-nil. Any further condition
+// (a "one tick pending" flag, a rate limit) makes ticks depend on state that some other path must reset -
+// one missed reset and the period is never queried again.
+func tickAlwaysPosted(c *core.Ctx, rule string) {
+	p := c.P
+	classes := p.GoroutineClasses()
+	tick := classes["TICK"]
+	if tick == nil {
+		c.Anchor(rule, "goroutine class TICK (ticker goroutines of the periodic server)")
+		return
+	}
+	n := 0
+	for _, root := range tick.Roots {
+		core.Instrs(root, func(in ssa.Instruction) {
+			sd, ok := in.(*ssa.Send)
+			if !ok {
+				return
+			}
+			n++
+			extra := ""
+			for _, f := range core.FactsAt(sd.Block()) {
+				// the select arm: index == k
+				if cmp, ok := f.V.(*ssa.BinOp); ok {
+					if ex, ok := cmp.X.(*ssa.Extract); ok {
+						if _, isSel := ex.Tuple.(*ssa.Select); isSel {
+							continue
+						}
+					}
+					// evtCh != nil
+					if x, _, ok := core.NilCmp(cmp); ok && core.Unwrap(x) == core.Unwrap(sd.Chan) {
+						continue
+					}
+				}
+				if f.V == sd.Chan {
+					continue
+				}
+				extra = fmt.Sprintf("%T %s", f.V, f.V.String())
+			}
+			c.Check(rule, "tick-always-posted:"+core.FnName(root), sd.Pos(), extra == "", "every tick is posted to the periodic server (the send depends only on the ticker arm and on the channel being non-nil) "+extra)
+		})
+	}
+	c.Floor(rule, n, 1, "tick posts in ticker goroutines")
 }
